@@ -322,6 +322,7 @@ func (m *Model) runStmt(key string, idx int, sp *StmtProg, params []pgwire.Param
 	written := 0
 	inCopy := false
 	copyAborted := false
+	copyEnded := ""
 	lastErr := "ok"
 	retClass := "ok"
 	var retSpec *ErrSpec
@@ -391,7 +392,18 @@ func (m *Model) runStmt(key string, idx int, sp *StmtProg, params []pgwire.Param
 				o.ev = append(o.ev, fmt.Sprintf("op %d %s nocopy", oi, op.K))
 				continue
 			}
+			if copyEnded == "eof" {
+				// reading on after CopyDone: the properties do not say
+				o.loose = true
+				return o
+			}
 			for n := 0; op.K == "copyall" || n < op.N; n++ {
+				if copyAborted {
+					// the abort is sticky: further reads fail and consume nothing
+					lastErr = "err"
+					o.ev = append(o.ev, fmt.Sprintf("op %d copyread err", oi))
+					break
+				}
 				// fetch the next message that is not Flush/Sync
 				var msg *pgwire.FMsg
 				for o.consumed < len(rest) {
@@ -432,6 +444,7 @@ func (m *Model) runStmt(key string, idx int, sp *StmtProg, params []pgwire.Param
 					continue
 				case 'c':
 					lastErr = "eof"
+					copyEnded = "eof"
 					o.ev = append(o.ev, fmt.Sprintf("op %d copyread eof", oi))
 				default:
 					// CopyFail or any non-COPY message aborts the COPY
